@@ -6,7 +6,7 @@ REGISTRY = {
     "C03": check_combo,
     "C04": check_pool,
     "C05": check_pool,
-    "C06": check_pool,
+    "C06": check_combo,
     "C07": check_pool,
     "C08": check_threads,
     "C09": check_pool,
